@@ -143,7 +143,10 @@ class SW:
             v = self.it.cmp_scalar("lt", age, prm_at["mean"](m, l))
             return rat(int(v)) if isinstance(v, bool) else v
         if cls_name == "NormalLifetime":
-            return fsym("sf_norm", age, prm_at["mean"](m, l), prm_at["std"](m, l), sign="nonneg")
+            mu, sd = rat(prm_at["mean"](m, l)), rat(prm_at["std"](m, l))
+            if sd.is_zero():
+                return fsym("sf_norm", age, mu, sd, sign="nonneg")
+            return fsym("ndtr", -(rat(age) - mu) / sd, sign="nonneg")       # norm.sf(x; loc, scale) = Phi(-(x - loc) / scale)
         if cls_name == "FoldedNormalLifetime":
             return fsym("sf_foldnorm", age, prm_at["mean"](m, l) / prm_at["std"](m, l), 0, prm_at["std"](m, l), sign="nonneg")
         if cls_name == "LogNormalLifetime":
